@@ -62,13 +62,13 @@ CLAIMED["C13"] = {
 }
 
 CLAIMED["C05"] = {
-    "text": "Coq theorems over a hand-written model of the dispatch (Model/QOps.v): every registered implementation of the three tables has a class (coverage, re-checked against the tables read from the decorators on every run); for ANY parametric data movement g and any number type, g applied to the dequantized tensor equals dequantizing the re-wrapped moved payload, and reshape / permute / slicing are such movements. Tie: tables and a fingerprint of the AST of every implementation and dispatch entry point. Random op programs (depth up to 8) run on the real tensors; after every step the result is compared with torch's op on the dequantized operands, exactly or with the per-class bound, and raising is compared with the float twin program.",
+    "text": "Coq theorems over a hand-written model of the dispatch (Model/QOps.v): every registered implementation of the three tables has a class (coverage, re-checked against the tables read from the decorators on every run); for ANY parametric data movement g and any number type, g applied to the dequantized tensor equals dequantizing the re-wrapped moved payload, and reshape / permute / slicing / select / unsqueeze / expand are such movements (gathers); movements compose, so the statement holds for every PROGRAM of data-movement ops of any length (C05_program_exact), and for cat of payloads sharing their scale. Tie: tables and a fingerprint of the AST of every implementation and dispatch entry point. Random op programs (depth up to 8) run on the real tensors; after every step the result is compared with torch's op on the dequantized operands, exactly or with the per-class bound, and raising is compared with the float twin program.",
     "note": "Trusted: Coq kernel; gen_ops.py; the hand-written class table (an implementation may change behaviour only by changing its AST, which breaks the fingerprint tie); torch as the oracle for the op on dequantized operands. Rescale (mul / div by a scalar) and sign (neg, relu) classes are proved equal to the float operation in exact arithmetic (relu for a non-negative scale; refuted for a negative one = F25). The re-quantizing class (softmax with scale 1/127, where with the input scale) is proved in exact arithmetic to be within half a step of the float result when it fits the output grid, where() keeps the elements of the quantized input exactly (also at IEEE level for float32/float16: the float product s*k re-quantizes to k); saturation of where() beyond the grid is the refuted form = F22. PARTIAL: float rounding of the rescale / requant classes is decided by the audit's per-class bounds; contractions are C07's. Known findings F5 (neg of code -128) and F22 (where saturating) are reported as KNOWN-FINDING.",
     "design": "6/C05",
     "technique": "Coq proof (movement algebra, table coverage) + AST-fingerprint tie + differential op-program runs",
 }
 CLAIMED["C06"] = {
-    "text": "Coq: the invariant between reported size / declared axis and the held payload / scale, preserved by the re-wrap every move-class implementation uses (payload's own size), refuted for the stale-size re-wrap; tie: fingerprints of all op implementations, constructors and dispatch entry points. On the same random op programs as C05, every quantized value (operands from quantization, every intermediate result, dtype / device moves, clones) is checked: shape / dtype / device equal those of its dequantized value, one code per element, storage dtype of the qtype, scale shape broadcasting along the declared axis, flattened metadata consistent, codes untouched by moves and copies, a dtype move changing only the scale's dtype.",
+    "text": "Coq: the invariant between reported size / declared axis and the held payload / scale, preserved by the re-wrap every move-class implementation uses (payload's own size), refuted for the stale-size re-wrap; kept by the same-layout re-wraps (rescale / sign / copy classes) and by the 2-D transpose of a per-axis tensor, hence along every program of such steps (C06_invariant_along_programs); tie: fingerprints of all op implementations, constructors and dispatch entry points. On the same random op programs as C05, every quantized value (operands from quantization, every intermediate result, dtype / device moves, clones) is checked: shape / dtype / device equal those of its dequantized value, one code per element, storage dtype of the qtype, scale shape broadcasting along the declared axis, flattened metadata consistent, codes untouched by moves and copies, a dtype move changing only the scale's dtype.",
     "note": "Trusted: Coq kernel; gen_ops.py; harness. The model covers the per-tensor move-class re-wrap; per-axis transposition, packed tensors and deserialization are decided by the audit (and C10).",
     "design": "6/C06",
     "technique": "Coq invariant proof + AST-fingerprint tie + metadata audit on op programs",
